@@ -104,14 +104,22 @@ Definition step (nan_skips : bool) (find : list bin -> bool -> xnum -> fb)
       if (match ws with Some _ => negb wok | None => false end)
          || existsb (fun r => negb (Nat.eqb (length r) (length (s_axes s)))) rows then (s, RRefused) else
       if is1d s then
+        match pairs_1d rows ws with
+        | [] => (s, RVoid)                (* an empty batch (or only NaN values) returns early *)
+        | _ =>
         let bins := fst (nth 0 (s_axes s) ([], true)) in
         let '(fe, u, o) := calc1 (pairs_1d rows ws) bins in
         (Build_fstate (s_axes s) (vadd (s_freq s) (map fst fe)) (vadd (s_err2 s) (map snd fe))
            (if s_keep s then xadd_at 1 o (xadd_at 0 u (s_missed s)) else s_missed s) (s_keep s), RVoid)
+        end
       else
+        match rows_of rows ws with
+        | [] => (s, RVoid)
+        | _ =>
         let r := calc_nd idx (s_axes s) (rows_of rows ws) in
         (Build_fstate (s_axes s) (vadd (s_freq s) (n_freq r)) (vadd (s_err2 s) (n_err2 r))
            (xadd_at 0 (Fin (n_missed r)) (s_missed s)) (s_keep s), RVoid)
+        end
   end.
 
 (** the specification's batch step for 1-D: filter-and-sum, exact under/overflow for consecutive bins *)
